@@ -277,6 +277,30 @@ func (w *Workspace) UpdateFile(path, content string) {
 	}
 }
 
+// RemoveFile drops the content of a file that does not exist (any more), e.g.
+// a document that was closed without ever being saved. Include lines that name
+// the file stay; it is indexed again when it reappears.
+func (w *Workspace) RemoveFile(path string) {
+	w.mu.Lock()
+	defer w.mu.Unlock()
+
+	if path == "" || path == w.rootJournalPath || w.index == nil {
+		return
+	}
+	oldIndex := w.index.FileIndex(path)
+	if oldIndex == nil {
+		return
+	}
+	w.updateIncludeEdgesLocked(path, oldIndex.Includes, nil)
+	w.index.RemoveFile(path)
+	delete(w.includeGraph, path)
+	w.updateResolvedLocked(path, nil)
+	w.clearCachesLocked()
+	if len(oldIndex.Includes) > 0 {
+		w.refreshIncludeTreeLocked()
+	}
+}
+
 func (w *Workspace) buildIndexFromResolvedLocked() {
 	if w.index == nil {
 		w.index = NewWorkspaceIndex()
